@@ -206,7 +206,7 @@ class P(flow.Plan):
 
     def model_runs(self, tier):
         if tier == "thorough":
-            root, cfg = model(["id", "rotz+tx", "scale", "roty"], [1, 2], [0, 2], [1])
+            root, cfg = model(["id", "rotz+tx", "scale", "roty"], [1], [0, 2], [1])      # 64 k states; two coordinate values no longer finish
         else:
             root, cfg = model(["id", "rotz+tx", "scale"], [1], [0, 2], [1])
         return [("xform-moves", "MCXformMove", cfg, root, [])]
